@@ -474,6 +474,17 @@ Theorem C02_times_ok_grid21 :
 Proof. exact times_ok_grid21. Qed.
 Print Assumptions C02_times_ok_grid21.
 
+(* Sterbenz: an end within a factor two of the start -- the object does not last longer than the time
+   at which it starts, i.e. every spinner / hold except at the very beginning of a map -- has an
+   exact difference, whatever the fractional digits *)
+Theorem C02_times_ok_sterbenz :
+  forall s e, in_lim64 s = true -> in_lim64 e = true ->
+  Rdefinitions.Rle (Rdefinitions.Rdiv (B2R s) (Rdefinitions.IZR 2)) (B2R e) /\
+  Rdefinitions.Rle (B2R e) (Rdefinitions.Rmult (Rdefinitions.IZR 2) (B2R s)) ->
+  spinner_time_ok s (spinner_dur s e) /\ hold_time_ok s (hold_dur s e).
+Proof. exact times_ok_sterbenz. Qed.
+Print Assumptions C02_times_ok_sterbenz.
+
 Theorem C02_int_end_in_limit :
   forall a b, Z.abs a < 2 ^ 53 -> Z.abs b < 2 ^ 53 -> Z.abs (a + b) <= max_parse_value ->
   in_lim64 (D.add (D.of_Z a) (D.of_Z b)) = true.
@@ -1273,7 +1284,8 @@ Proof. exact all_kinds_round_trip. Qed.
      The time condition fl(fl(start + d) - start) = d is FALSE in general: C02_times_ok_refuted,
      known finding D33 (confirmed on the crate).  PROVED for every pair of accepted times whose
      difference is a binary64 number (C02_times_ok_exact_difference; binary grids: C02_times_ok_grid,
-     C02_times_ok_grid21; whole milliseconds: C02_times_ok_whole_milliseconds, C02_times_ok_partial)
+     C02_times_ok_grid21; whole milliseconds: C02_times_ok_whole_milliseconds, C02_times_ok_partial;
+     any fractional times with start / 2 <= end <= 2 * start: C02_times_ok_sterbenz)
      and whenever the written end is the end that was read (C02_times_ok_of_end).  OPEN between these
      classes and D33: pairs whose difference is rounded but whose duration survives (most
      fractional times; the oracle checks each instance).
